@@ -136,6 +136,11 @@ def check(prog: Program, run: Run) -> None:
     _progress(prog, run)
     eff = escape_rule(prog, run, "C05.R1")
     _implicit(prog, run, eff)
+    from . import common
+    # a short name is a string: testing it for membership in a list of OBJECTS is always False
+    common.g12_keys_are_not_names(prog, run, "C05.R1", [
+        "odxtools/dtcdop.py", "odxtools/parameters/*.py", "odxtools/multiplexer.py",
+        "odxtools/*field.py", "odxtools/environmentdatadescription.py", "odxtools/table.py"])
     _truncation(prog, run)
     _counted_loops(prog, run)
     _handlers(prog, run)
@@ -165,6 +170,18 @@ def _implicit(prog: Program, run: Run, eff: Effects) -> None:
                 strict = errs is None or not (isinstance(errs, ast.Constant) and errs.value in (
                     "replace", "ignore", "backslashreplace", "surrogateescape"))
                 if not (x.args or x.keywords):
+                    continue
+                if isinstance(errs, ast.Constant) and errs.value not in (
+                        "strict", "ignore", "replace", "xmlcharrefreplace", "backslashreplace",
+                        "namereplace", "surrogateescape", "surrogatepass"):
+                    n += 1
+                    run.violation(R, f"{f.module.rel}:{f.qual}", "unknown-error-handler",
+                                  f"`{ast.unparse(x)}`: {errs.value!r} is not a registered codec "
+                                  "error handler; the name is only looked up when a decoding "
+                                  "error occurs, and then LookupError is raised instead of "
+                                  "UnicodeDecodeError -- past the handler that turns invalid "
+                                  "bytes into a DecodeError", f"{f.module.rel}:{x.lineno}",
+                                  ast.unparse(x))
                     continue
                 if strict:
                     n += 1
